@@ -135,6 +135,17 @@ class FnEmitter:
             a = self.expr(n.args[1], bound, pre)
             b = self.expr(n.args[2], bound, pre)
             return f"(if eqb {c} zero then {b} else {a})"
+        if op == "ite":
+            # (added by the core-glue tie, additive) a per-element selection that is NOT a fork:
+            # Node("ite", rel, a, b, t, e) = t if (a rel b) else e, rel in lt/le/eq.  Created only
+            # by GlueProxy arrays in specs_minerals.py (ndarray.clip, boolean-mask assignment).
+            rel, a, b, t, e = n.args
+            f = {"lt": "ltb", "le": "leb", "eq": "eqb"}[rel]
+            a = self.expr(a, bound, pre)
+            b = self.expr(b, bound, pre)
+            t = self.expr(t, bound, pre)
+            e = self.expr(e, bound, pre)
+            return f"(if {f} {a} {b} then {t} else {e})"
         if op in ("inf", "ninf"):
             raise TranslatorUnsupported("infinite value reached the emitter")
         raise TranslatorUnsupported(f"emit {op}")
@@ -337,6 +348,10 @@ Local Open Scope num_scope.
 
 def emit_module(tr, src, sha):
     parts = [HEADER.format(src=src, sha=sha)]
+    # (added by the core-glue tie, additive) a translation whose definitions call kernels of
+    # another generated module names the extra imports in `tr.header_extra`
+    if getattr(tr, "header_extra", None):
+        parts.append(tr.header_extra)
     for cname in tr.order:
         parts.append(FnEmitter(tr.defs[cname]).emit())
         parts.append("")
